@@ -760,7 +760,12 @@ func init() {
 func extFmod(fr *frame, a []value) value {
 	i := fr.i
 	if !isSym(a[0]) && !isSym(a[1]) {
-		return math.Mod(a[0].(float64), a[1].(float64))
+		r := math.Mod(a[0].(float64), a[1].(float64))
+		// a true fact about the real function, so that the uninterpreted symbol agrees
+		// with native evaluation wherever the latter was used
+		c := i.ctx
+		i.sess.AddFact(c.Eq(c.UF("fmod", smt.FP(64), i.term(a[0]), i.term(a[1])), c.FPConst64(r)))
+		return r
 	}
 	return i.val(i.ctx.UF("fmod", smt.FP(64), i.term(a[0]), i.term(a[1])), types.Float64)
 }
